@@ -177,13 +177,13 @@ Qed.
 Print Assumptions c06_csrf_nonget.
 
 (* the full form is false of the current tree (finding F15): these are exactly the routes whose
-   state-changing effect a cross-site GET carrying the victim's session reaches (ten since the
-   registration-finish handlers insist on POST, 8abc791) *)
+   state-changing effect a cross-site GET carrying the victim's session reaches (nine since the
+   registration-finish handlers and the WebAuthn login finish insist on POST) *)
 Theorem c06_get_state_changers :
   get_state_changers =
   ["runtimeState.u2fRegisterRequest"; "runtimeState.u2fSignRequest";
    "runtimeState.webauthnBeginRegistration";
-   "runtimeState.webauthnAuthLogin"; "runtimeState.webauthnAuthFinish"; "runtimeState.vipPushStartHandler";
+   "runtimeState.webauthnAuthLogin"; "runtimeState.vipPushStartHandler";
    "runtimeState.GenerateNewTOTP"; "runtimeState.oktaPushStartHandler"; "runtimeState.oktaPollCheckHandler";
    "runtimeState.BootstrapOtpAuthHandler"]%string.
 Proof. vm_compute. reflexivity. Qed.
@@ -223,6 +223,14 @@ Theorem c06_old_register_finish_refuted :
                   state_changing e = true /\ csrf_safe register_finish_old_steps = false.
 Proof. exists env0, (cross_get 1 bU2F), EChange. vm_compute. tauto. Qed.
 Print Assumptions c06_old_register_finish_refuted.
+
+(* the WebAuthn login finish before it insisted on POST: a GET carrying the token's assertion for the pending
+   challenge, a foreign Origin and the victim's session stored the token's counter and raised the session *)
+Theorem c06_old_auth_finish_refuted :
+  exists env q e, q_origin q = CrossOrigin /\ In e (snd (run env q auth_finish_old_steps None)) /\
+                  state_changing e = true /\ csrf_safe auth_finish_old_steps = false.
+Proof. exists env0, (cross_get 1 bU2F), EChange. vm_compute. tauto. Qed.
+Print Assumptions c06_old_auth_finish_refuted.
 
 (* the certificate branch before the two repairs: (a) chains issued by the role CA counted as
    plain keymaster certificates (an automation certificate outside its netblocks was let in
